@@ -159,7 +159,9 @@ impl<F: Float + SampleUniform + std::fmt::Debug, D: Hash + Copy, H: Hasher + Def
         let k: usize = Uniform::<usize>::new(0, m)
             .unwrap()
             .sample(&mut rand_generator); // m beccause upper bound of range is excluded
-        if r <= self.hsketch[k] {
+        // ties on r between different items happen (r has 24 bits of mantissa if F = f32). We break them on
+        // the hash value so that the stored hash does not depend on the order of arrival
+        if r < self.hsketch[k] || (r == self.hsketch[k] && hval1 < self.values[k]) {
             self.hsketch[k] = r;
             self.values[k] = hval1;
             if !self.init[k] {
@@ -325,7 +327,9 @@ impl<F: Float + SampleUniform + std::fmt::Debug, D: Hash + Copy, H: Hasher + Def
         let unit_range = Uniform::<F>::new(num::zero::<F>(), num::one::<F>()).unwrap();
         let r: F = unit_range.sample(&mut rand_generator);
         let k: usize = unif_0m.sample(&mut rand_generator); // m beccause upper bound of range is excluded
-        if r <= self.hsketch[k] {
+        // ties on r between different items happen (r has 24 bits of mantissa if F = f32). We break them on
+        // the hash value so that the stored hash does not depend on the order of arrival
+        if r < self.hsketch[k] || (r == self.hsketch[k] && hval1 < self.values[k]) {
             self.hsketch[k] = r;
             self.values[k] = hval1;
             if !self.init[k] {
